@@ -1,7 +1,7 @@
 (* C05 -- every node carries a valid, nested, ordered and faithful source range.  Statements only; proofs in
    proofs/RangeProofs.v; see DESIGN.md section 6 C05. *)
 From Coq Require Import String.
-From MdIt Require Import Prims Tables Tree Render Block Inline Core Dump Dispatch RangeProofs BlockRangeDefs BlockSafeProofs.
+From MdIt Require Import Prims Tables Tree Render Block Inline Core Dump Dispatch RangeProofs RefSafeProofs BlockRangeDefs BlockSafeProofs LineProofs.
 Local Open Scope string_scope.
 Local Open Scope list_scope.
 Local Open Scope N_scope.
@@ -67,19 +67,24 @@ Theorem C05_escape_selects_markup : forall st st' n, rule_escape st false = inr 
        source_pos_for st (i_pos st) = inr pa /\ source_pos_for st (i_pos st + n) = inr pb).
 Proof. exact escape_markup. Qed.
 
-(* THE BLOCK TREE (BlockSafeProofs, same invariant as the no-panic proof of C01): for every document (list of line texts),
-   every chain of block rules without the reference-definition rule, every limit and fuel -- every block node the block
+(* THE BLOCK TREE (BlockSafeProofs, same invariant as the no-panic proof of C01): for every document (list of line texts
+   without line feeds; the lines of every source text), every chain of block rules, every limit and fuel -- every block node the block
    pass returns carries a range (line a, offset) .. (line b, offset) whose ends are positions of the line texts
    (offset <= length of that line), a <= b and on one line start offset <= end offset; the lines of every child lie
    within the lines of its parent; siblings occupy strictly increasing, disjoint line ranges (kids_ok / blk_ok, file
    BlockRangeDefs; nodes without a range -- the placeholders of inline content -- are skipped).  Containers (quote,
    list, list item, tight-list flattening) included.  In absolute offsets this is validity, nesting and order at line
-   granularity.  NOT covered: nesting of the start offset within one line, the inline nodes, the reference rule. *)
+   granularity.  NOT covered: nesting of the start offset within one line, the inline nodes. *)
 Theorem C05_block_ranges : forall fuel cfg texts refs root' refs',
-  Forall (fun r => r <> R_REF) (bc_chain cfg) ->
+  Forall (fun t => cl t = 0) texts ->
   block_parse fuel cfg texts (mk KRoot None []) refs = inr (root', refs') ->
   kids_ok texts 0 (length texts) (n_children root').
 Proof. exact block_parse_ranges. Qed.
+
+Theorem C05_block_ranges_of_source : forall fuel cfg src refs root' refs',
+  block_parse fuel cfg (texts_of src) (mk KRoot None []) refs = inr (root', refs') ->
+  kids_ok (texts_of src) 0 (length (texts_of src)) (n_children root').
+Proof. exact block_pass_of_source_ranges. Qed.
 
 (* what kids_ok says about one node *)
 Theorem C05_block_range_meaning : forall tx lo hi k m a e cs,
@@ -115,5 +120,6 @@ Print Assumptions C05_text_created_faithful.
 Print Assumptions C05_text_extended_faithful.
 Print Assumptions C05_entity_selects_markup.
 Print Assumptions C05_block_ranges.
+Print Assumptions C05_block_ranges_of_source.
 Print Assumptions C05_block_range_meaning.
 Print Assumptions C05_escape_selects_markup.
